@@ -92,11 +92,27 @@ def sem_selector(sel):
         comps.append((cur_comb, el, tuple(simples)))
         el, simples = '', []
 
+    try:
+        default_ns = dict(sel._namespaces.items()).get('')
+    except Exception:  # noqa
+        default_ns = None
+
+    def qn(v, attr=False):
+        """name, qualified when its namespace is not the one an unprefixed name would get"""
+        if not isinstance(v, tuple):
+            return v
+        ns = v[0]
+        if ns is None or (not attr and default_ns is not None and ns == default_ns):
+            return v[1]
+        if not isinstance(ns, str):
+            return '{*}' + v[1]
+        return '{%s}%s' % (ns, v[1])
+
     def parse_simple(i, neg=False):
         it = items[i]
         t, v = it.type, it.value
         if t in ('type-selector', 'negation-type-selector', 'universal', 'negation-universal'):
-            return ('type', v[1]), i + 1
+            return ('type', qn(v)), i + 1
         if t == 'id':
             return ('id', v[1:]), i + 1
         if t == 'class':
@@ -107,7 +123,7 @@ def sem_selector(sel):
             while items[i].type != 'attribute-end':
                 tt, vv = items[i].type, items[i].value
                 if tt == 'attribute-selector':
-                    name = vv[1] if isinstance(vv, tuple) else vv
+                    name = qn(vv, attr=True)
                 elif tt in ATTROP:
                     op = ATTROP[tt]
                 elif tt in ('STRING', 'attribute-value', 'IDENT'):
@@ -148,7 +164,7 @@ def sem_selector(sel):
             i += 1
             continue
         if t in ('type-selector', 'universal'):
-            el = v[1]
+            el = qn(v)
             i += 1
             continue
         s, i = parse_simple(i)
